@@ -462,4 +462,22 @@ theorem C20_json_wellformed (P : String → Prop) {D : Type} (g : Graph.G D) (fm
       generalize String.join (kvs.map fun (kv : String × String) => ",\n" ++ Export.jsonStr kv.1 ++ ": " ++ kv.2 ++ "\n") = R
       apply str_eq; simp [String.join_cons]
 
+/-- non-vacuity: the empty graph and a two-node graph with a link satisfy the hypotheses, and the writer returns -/
+example : Text (fun _ => False) "{\n\"nodes\": [\n],\n\"links\": [\n]\n\n}\n" :=
+  C20_json_wellformed (fun _ => False) (⟨4, [], false⟩ : Graph.G Nat) (fun d => toString d) none
+    (fun n hn => by cases hn) (fun kvs h => by cases h) _ (by decide)
+
+def exG : Graph.G Nat := ⟨4, [⟨[0, 1, 2, 3], ⟨0x40⟩, 7⟩, ⟨[1, 2, 3, 2], ⟨0x01⟩, 9⟩], false⟩
+
+example : (Export.toJsonRestImp exG (fun d => toString d) (some [("a\"b", "1")])).isSome = true := by decide
+
+example (doc : String) (h : Export.toJsonRestImp exG (fun d => toString d) (some [("a\"b", "1")]) = some doc) :
+    Text (fun _ => False) doc :=
+  C20_json_wellformed (fun _ => False) exG (fun d => toString d) (some [("a\"b", "1")])
+    (fun n _ => .num (natLit n.data)) (fun kvs h kv hkv => by
+      cases h
+      simp only [List.mem_cons, List.mem_nil_iff, or_false] at hkv
+      subst hkv
+      exact .num (natLit 1)) doc h
+
 end Json
